@@ -240,8 +240,9 @@ theorem nestedCheckpointScan_mismatch_rejected (f : C → X → C × Y) (init : 
       = if lengthMismatch length ls then .error .valueError else .error .typeError := by
   simp [nestedCheckpointScan, h]
 
-/-- a zero in a non-innermost position makes the recursion fail (`jnp.concatenate` of an empty
- sequence), whatever the input -/
+/-- for a body with at least one output leaf (`innerNestedScan`), a zero in a non-innermost
+ position makes the recursion fail (`jnp.concatenate` of an empty sequence), whatever the input;
+ general form (any number of output leaves): `innerNestedScanOut_zero_outer` -/
 theorem innerNestedScan_zero_outer (f : C → X → C × Y) :
     ∀ (pre post : List Nat), post ≠ [] → ∀ (c : C) (xs : List X),
       innerNestedScan f (pre ++ 0 :: post) c xs = .error .valueError
@@ -271,7 +272,8 @@ theorem nestedCheckpointScan_zero_outer_rejected (f : C → X → C × Y) (init 
     nestedCheckpointScan f init xs length (pre ++ 0 :: post) = .error .valueError := by
   simp [nestedCheckpointScan, hm, hx, innerNestedScan_zero_outer f pre post hpost]
 
-/-- exact characterisation of the accepted calls -/
+/-- exact characterisation of the accepted calls for a body with at least one output leaf;
+ general form, including bodies returning `None` as output: `nestedCheckpointScanOut_ok_iff` -/
 theorem nestedCheckpointScan_ok_iff (f : C → X → C × Y) (init : C) (xs : List X)
     (length : Option Nat) (ls : List Nat) :
     (∃ r, nestedCheckpointScan f init xs length ls = .ok r)
@@ -386,7 +388,8 @@ theorem innerNestedScanTree_zero_outer (f : C → List X → C × Y) :
       unfold innerNestedScanTree
       rw [chunksTree, scanE_cons_error _ _ _ _ _ (ih c _)]
 
-/-- exact characterisation of the accepted calls, pytree form -/
+/-- exact characterisation of the accepted calls, pytree form, for a body with at least one output
+ leaf; general form: `nestedCheckpointScanTreeOut_ok_iff` -/
 theorem nestedCheckpointScanTree_ok_iff (f : C → List X → C × Y) (init : C)
     (leaves : List (List X)) (length : Option Nat) (ls : List Nat) :
     (∃ r, nestedCheckpointScanTree f init leaves length ls = .ok r)
@@ -443,6 +446,313 @@ example : nestedCheckpointScanTree (fun (c : Nat) (r : List Nat) => (c + r.sum, 
     [[1, 2, 3, 4], [10, 20, 30, 40]] none [2, 2] = .ok (110, [2, 2, 2, 2]) := by decide
 example : nestedCheckpointScanTree (fun (c : Nat) (r : List Nat) => (c + 1, r.length)) 0
     [] (some 4) [2, 2] = .ok (4, [0, 0, 0, 0]) := by decide
+
+/-! ### empty `nested_lengths` -/
+
+/-- `nested_lengths = []` without `length`: `reshape` to the trailing shape needs exactly one row
+ (`TypeError` otherwise), then `lengths[0]` raises `IndexError` -/
+theorem nestedCheckpointScan_empty_lengths (f : C → X → C × Y) (init : C) (xs : List X) :
+    nestedCheckpointScan f init xs none []
+      = if xs.length = 1 then .error .indexError else .error .typeError := by
+  by_cases h : xs.length = 1 <;> simp [nestedCheckpointScan, lengthMismatch, prod, innerNestedScan, h]
+
+/-- `nested_lengths = []` is never accepted: `ValueError` when `length` is given and is not `1`
+ (`math.prod([]) = 1`), otherwise `IndexError` for an input of exactly one row and `TypeError`
+ for every other input; the same for every number of output leaves -/
+theorem nestedCheckpointScanOut_empty_lengths (nOut : Nat) (f : C → X → C × Y) (init : C)
+    (xs : List X) (length : Option Nat) :
+    nestedCheckpointScanOut nOut f init xs length []
+      = if (∃ n, length = some n ∧ n ≠ 1) then .error .valueError
+        else if xs.length = 1 then .error .indexError else .error .typeError := by
+  cases length with
+  | none =>
+    by_cases h : xs.length = 1 <;>
+      simp [nestedCheckpointScanOut, lengthMismatch, prod, innerNestedScanOut, h]
+  | some n =>
+    by_cases hn : n = 1 <;> by_cases h : xs.length = 1 <;>
+      simp [nestedCheckpointScanOut, lengthMismatch, prod, innerNestedScanOut, h, hn]
+
+/-- pytree form: `IndexError` when every leaf has exactly one row (in particular `xs = None`),
+ `TypeError` as soon as one leaf has not -/
+theorem nestedCheckpointScanTreeOut_empty_lengths (nOut : Nat) (f : C → List X → C × Y) (init : C)
+    (leaves : List (List X)) (length : Option Nat) :
+    nestedCheckpointScanTreeOut nOut f init leaves length []
+      = if (∃ n, length = some n ∧ n ≠ 1) then .error .valueError
+        else if ∀ a ∈ leaves, a.length = 1 then .error .indexError else .error .typeError := by
+  have hany : (leaves.any fun a => a.length != 1) = true ↔ ¬ ∀ a ∈ leaves, a.length = 1 := by
+    simp [List.any_eq_true]
+  cases length with
+  | none =>
+    by_cases h : ∀ a ∈ leaves, a.length = 1
+    · have : (leaves.any fun a => a.length != 1) = false := by
+        rw [← Bool.not_eq_true, hany]; exact not_not.mpr h
+      simp [nestedCheckpointScanTreeOut, lengthMismatch, prod, innerNestedScanTreeOut, this]
+      exact h
+    · have : (leaves.any fun a => a.length != 1) = true := hany.mpr h
+      simp [nestedCheckpointScanTreeOut, lengthMismatch, prod, h, this]
+  | some n =>
+    by_cases hn : n = 1
+    · by_cases h : ∀ a ∈ leaves, a.length = 1
+      · have : (leaves.any fun a => a.length != 1) = false := by
+          rw [← Bool.not_eq_true, hany]; exact not_not.mpr h
+        simp [nestedCheckpointScanTreeOut, lengthMismatch, prod, innerNestedScanTreeOut, this, hn]
+        exact h
+      · have : (leaves.any fun a => a.length != 1) = true := hany.mpr h
+        simp [nestedCheckpointScanTreeOut, lengthMismatch, prod, h, this, hn]
+    · simp [nestedCheckpointScanTreeOut, lengthMismatch, prod, hn]
+
+/-! ### bodies with any number of output leaves (`None` as output: `nOut = 0`) -/
+
+/-- with at least one output leaf the general recursion is `innerNestedScan` -/
+theorem innerNestedScanOut_succ (n : Nat) (f : C → X → C × Y) :
+    ∀ (ls : List Nat) (c : C) (xs : List X),
+      innerNestedScanOut (n + 1) f ls c xs = innerNestedScan f ls c xs
+  | [], _, _ => rfl
+  | [l], _, _ => by simp [innerNestedScanOut, innerNestedScan]
+  | l :: l' :: ls, c, xs => by
+    have ih : (fun carry sub => innerNestedScanOut (n + 1) f (l' :: ls) carry sub)
+        = fun carry sub => innerNestedScan f (l' :: ls) carry sub := by
+      funext carry sub
+      exact innerNestedScanOut_succ n f (l' :: ls) carry sub
+    rw [innerNestedScanOut, innerNestedScan, ih]
+    generalize scanE (fun carry sub => innerNestedScan f (l' :: ls) carry sub) c
+      (chunks (prod (l' :: ls)) l xs) = r
+    cases r <;> simp
+
+theorem nestedCheckpointScanOut_succ (n : Nat) (f : C → X → C × Y) (init : C) (xs : List X)
+    (length : Option Nat) (ls : List Nat) :
+    nestedCheckpointScanOut (n + 1) f init xs length ls = nestedCheckpointScan f init xs length ls := by
+  simp [nestedCheckpointScanOut, nestedCheckpointScan, innerNestedScanOut_succ]
+
+/-- the recursion on already reshaped input, any number of output leaves: for a non-empty nesting
+ and an input of `prod lengths` rows the result is the flat scan, provided the non-innermost
+ lengths are positive **or the body has no output leaf** -/
+theorem innerNestedScanOut_eq_scan (nOut : Nat) (f : C → X → C × Y) :
+    ∀ (ls : List Nat), ls ≠ [] → (nOut ≠ 0 → ∀ l ∈ ls.dropLast, 0 < l) →
+      ∀ (c : C) (xs : List X), xs.length = prod ls →
+        innerNestedScanOut nOut f ls c xs = .ok (scan f c xs)
+  | [], h, _, _, _, _ => absurd rfl h
+  | [l], _, _, c, xs, hx => by
+    have : xs.length = l := by simpa [prod] using hx
+    simp [innerNestedScanOut, this]
+  | l :: l' :: ls, _, hpos, c, xs, hx => by
+    have ih := innerNestedScanOut_eq_scan nOut f (l' :: ls) (by simp)
+      (fun h0 m hm => hpos h0 m (by rw [List.dropLast_cons_cons]; exact List.mem_cons_of_mem _ hm))
+    rw [prod_cons] at hx
+    have hlen := length_of_mem_chunks (prod (l' :: ls)) l xs hx
+    have hE := scanE_eq_ok (fun carry sub => innerNestedScanOut nOut f (l' :: ls) carry sub)
+      (fun c ch => scan f c ch) (chunks (prod (l' :: ls)) l xs)
+      (fun ch hch c => ih c ch (hlen ch hch)) c
+    unfold innerNestedScanOut
+    rw [hE]
+    have hne : ¬ (nOut ≠ 0 ∧
+        (scan (fun c ch => scan f c ch) c (chunks (prod (l' :: ls)) l xs)).2.isEmpty = true) := by
+      rintro ⟨h0, he⟩
+      have hl : 0 < l := hpos h0 l (by rw [List.dropLast_cons_cons]; exact List.mem_cons_self)
+      rw [List.isEmpty_iff, ← List.length_eq_zero_iff] at he
+      simp at he
+      omega
+    simp only [hne, if_false]
+    conv_rhs => rw [← chunks_flatten (prod (l' :: ls)) l xs hx, scan_flatten]
+
+/-- **T14.4, any number of output leaves** -/
+theorem nestedCheckpointScanOut_eq_scan (nOut : Nat) (f : C → X → C × Y) (init : C) (xs : List X)
+    (length : Option Nat) (ls : List Nat) (hne : ls ≠ [])
+    (hpos : nOut ≠ 0 → ∀ l ∈ ls.dropLast, 0 < l)
+    (hx : xs.length = prod ls) (hlen : ∀ n, length = some n → n = prod ls) :
+    nestedCheckpointScanOut nOut f init xs length ls = .ok (scan f init xs) := by
+  have hm : lengthMismatch length ls = false := by
+    cases length with
+    | none => rfl
+    | some n => simp [lengthMismatch, hlen n rfl]
+  simp [nestedCheckpointScanOut, hm, hx, innerNestedScanOut_eq_scan nOut f ls hne hpos init xs hx]
+
+/-- a body returning `None` as output: every non-empty nesting of the right product is accepted,
+ zeros in any position included (e.g. `[0, 3]` for an empty input gives `(init, None)`) -/
+theorem nestedCheckpointScanOut_no_output (f : C → X → C × Y) (init : C) (xs : List X)
+    (length : Option Nat) (ls : List Nat) (hne : ls ≠ [])
+    (hx : xs.length = prod ls) (hlen : ∀ n, length = some n → n = prod ls) :
+    nestedCheckpointScanOut 0 f init xs length ls = .ok (scan f init xs) :=
+  nestedCheckpointScanOut_eq_scan 0 f init xs length ls hne (fun h => absurd rfl h) hx hlen
+
+/-- with at least one output leaf, a zero in a non-innermost position makes the recursion fail
+ (`jnp.concatenate` of an empty sequence), whatever the input -/
+theorem innerNestedScanOut_zero_outer (nOut : Nat) (h0 : nOut ≠ 0) (f : C → X → C × Y)
+    (pre post : List Nat) (hpost : post ≠ []) (c : C) (xs : List X) :
+    innerNestedScanOut nOut f (pre ++ 0 :: post) c xs = .error .valueError := by
+  obtain ⟨n, rfl⟩ : ∃ n, nOut = n + 1 := ⟨nOut - 1, by omega⟩
+  rw [innerNestedScanOut_succ]
+  exact innerNestedScan_zero_outer f pre post hpost c xs
+
+/-- **exact characterisation of the accepted calls**, for a body with `nOut` output leaves:
+ consistent `length`, input of `prod nested_lengths` rows, non-empty nesting and — only when the
+ body has an output leaf — positive non-innermost lengths -/
+theorem nestedCheckpointScanOut_ok_iff (nOut : Nat) (f : C → X → C × Y) (init : C) (xs : List X)
+    (length : Option Nat) (ls : List Nat) :
+    (∃ r, nestedCheckpointScanOut nOut f init xs length ls = .ok r)
+      ↔ (lengthMismatch length ls = false ∧ xs.length = prod ls ∧ ls ≠ []
+          ∧ (nOut ≠ 0 → ∀ l ∈ ls.dropLast, 0 < l)) := by
+  cases nOut with
+  | succ n =>
+    simp only [nestedCheckpointScanOut_succ, nestedCheckpointScan_ok_iff, ne_eq,
+      Nat.add_one_ne_zero, not_false_eq_true, forall_const]
+  | zero =>
+    constructor
+    · rintro ⟨r, hr⟩
+      by_cases hm : lengthMismatch length ls = true
+      · simp [nestedCheckpointScanOut, hm] at hr
+      simp only [Bool.not_eq_true] at hm
+      by_cases hx : xs.length = prod ls
+      swap
+      · simp [nestedCheckpointScanOut, hm, hx] at hr
+      refine ⟨hm, hx, ?_, fun h => absurd rfl h⟩
+      rintro rfl
+      simp [nestedCheckpointScanOut, hm, hx, innerNestedScanOut] at hr
+    · rintro ⟨hm, hx, hne, _⟩
+      refine ⟨scan f init xs, nestedCheckpointScanOut_no_output f init xs length ls hne hx ?_⟩
+      intro n hn
+      subst hn
+      simpa [lengthMismatch] using hm
+
+/-! #### pytree inputs, any number of output leaves -/
+
+theorem innerNestedScanTreeOut_succ (n : Nat) (f : C → List X → C × Y) :
+    ∀ (ls : List Nat) (c : C) (leaves : List (List X)),
+      innerNestedScanTreeOut (n + 1) f ls c leaves = innerNestedScanTree f ls c leaves
+  | [], _, _ => rfl
+  | [l], _, _ => by simp [innerNestedScanTreeOut, innerNestedScanTree]
+  | l :: l' :: ls, c, leaves => by
+    have ih : (fun carry sub => innerNestedScanTreeOut (n + 1) f (l' :: ls) carry sub)
+        = fun carry sub => innerNestedScanTree f (l' :: ls) carry sub := by
+      funext carry sub
+      exact innerNestedScanTreeOut_succ n f (l' :: ls) carry sub
+    rw [innerNestedScanTreeOut, innerNestedScanTree, ih]
+    generalize scanE (fun carry sub => innerNestedScanTree f (l' :: ls) carry sub) c
+      (chunksTree (prod (l' :: ls)) l leaves) = r
+    cases r <;> simp
+
+theorem nestedCheckpointScanTreeOut_succ (n : Nat) (f : C → List X → C × Y) (init : C)
+    (leaves : List (List X)) (length : Option Nat) (ls : List Nat) :
+    nestedCheckpointScanTreeOut (n + 1) f init leaves length ls
+      = nestedCheckpointScanTree f init leaves length ls := by
+  simp [nestedCheckpointScanTreeOut, nestedCheckpointScanTree, innerNestedScanTreeOut_succ]
+
+theorem innerNestedScanTreeOut_eq_scan (nOut : Nat) (f : C → List X → C × Y) :
+    ∀ (ls : List Nat), ls ≠ [] → (nOut ≠ 0 → ∀ l ∈ ls.dropLast, 0 < l) →
+      ∀ (c : C) (leaves : List (List X)), (∀ a ∈ leaves, a.length = prod ls) →
+        innerNestedScanTreeOut nOut f ls c leaves = .ok (scan f c (rows (prod ls) leaves))
+  | [], h, _, _, _, _ => absurd rfl h
+  | [l], _, _, c, leaves, hx => by
+    have : ∀ a ∈ leaves, a.length = l := by simpa [prod] using hx
+    have hall : (leaves.all fun a => a.length == l) = true := by
+      simpa [List.all_eq_true] using this
+    simp [innerNestedScanTreeOut, hall, prod]
+  | l :: l' :: ls, _, hpos, c, leaves, hx => by
+    have ih := innerNestedScanTreeOut_eq_scan nOut f (l' :: ls) (by simp)
+      (fun h0 m hm => hpos h0 m (by rw [List.dropLast_cons_cons]; exact List.mem_cons_of_mem _ hm))
+    simp only [prod_cons l] at hx
+    have hlen := length_of_mem_chunksTree (prod (l' :: ls)) l leaves hx
+    have hE := scanE_eq_ok (fun carry sub => innerNestedScanTreeOut nOut f (l' :: ls) carry sub)
+      (fun c sub => scan f c (rows (prod (l' :: ls)) sub)) (chunksTree (prod (l' :: ls)) l leaves)
+      (fun sub hsub c => ih c sub (hlen sub hsub)) c
+    unfold innerNestedScanTreeOut
+    rw [hE, scan_map (fun c ch => scan f c ch) (rows (prod (l' :: ls)))]
+    have hne : ¬ (nOut ≠ 0 ∧ (scan (fun c ch => scan f c ch) c
+        ((chunksTree (prod (l' :: ls)) l leaves).map (rows (prod (l' :: ls))))).2.isEmpty = true) := by
+      rintro ⟨h0, he⟩
+      have hl : 0 < l := hpos h0 l (by rw [List.dropLast_cons_cons]; exact List.mem_cons_self)
+      rw [List.isEmpty_iff, ← List.length_eq_zero_iff] at he
+      simp at he
+      omega
+    simp only [hne, if_false]
+    conv_rhs => rw [prod_cons l, ← chunksTree_flatten, scan_flatten]
+
+/-- **T14.4, pytree form, any number of output leaves** -/
+theorem nestedCheckpointScanTreeOut_eq_scan (nOut : Nat) (f : C → List X → C × Y) (init : C)
+    (leaves : List (List X)) (length : Option Nat) (ls : List Nat) (hne : ls ≠ [])
+    (hpos : nOut ≠ 0 → ∀ l ∈ ls.dropLast, 0 < l) (hx : ∀ a ∈ leaves, a.length = prod ls)
+    (hlen : ∀ n, length = some n → n = prod ls) :
+    nestedCheckpointScanTreeOut nOut f init leaves length ls
+      = .ok (scan f init (rows (prod ls) leaves)) := by
+  have hm : lengthMismatch length ls = false := by
+    cases length with
+    | none => rfl
+    | some n => simp [lengthMismatch, hlen n rfl]
+  have hany : (leaves.any fun a => a.length != prod ls) = false := by
+    rw [List.any_eq_false]; intro a ha; simp [hx a ha]
+  simp [nestedCheckpointScanTreeOut, hm, hany,
+    innerNestedScanTreeOut_eq_scan nOut f ls hne hpos init leaves hx]
+
+theorem innerNestedScanTreeOut_zero_outer (nOut : Nat) (h0 : nOut ≠ 0) (f : C → List X → C × Y)
+    (pre post : List Nat) (hpost : post ≠ []) (c : C) (leaves : List (List X)) :
+    innerNestedScanTreeOut nOut f (pre ++ 0 :: post) c leaves = .error .valueError := by
+  obtain ⟨n, rfl⟩ : ∃ n, nOut = n + 1 := ⟨nOut - 1, by omega⟩
+  rw [innerNestedScanTreeOut_succ]
+  exact innerNestedScanTree_zero_outer f pre post hpost c leaves
+
+/-- exact characterisation of the accepted calls, pytree form, `nOut` output leaves -/
+theorem nestedCheckpointScanTreeOut_ok_iff (nOut : Nat) (f : C → List X → C × Y) (init : C)
+    (leaves : List (List X)) (length : Option Nat) (ls : List Nat) :
+    (∃ r, nestedCheckpointScanTreeOut nOut f init leaves length ls = .ok r)
+      ↔ (lengthMismatch length ls = false ∧ (∀ a ∈ leaves, a.length = prod ls) ∧ ls ≠ []
+          ∧ (nOut ≠ 0 → ∀ l ∈ ls.dropLast, 0 < l)) := by
+  cases nOut with
+  | succ n =>
+    simp only [nestedCheckpointScanTreeOut_succ, nestedCheckpointScanTree_ok_iff, ne_eq,
+      Nat.add_one_ne_zero, not_false_eq_true, forall_const]
+  | zero =>
+    constructor
+    · rintro ⟨r, hr⟩
+      by_cases hm : lengthMismatch length ls = true
+      · simp [nestedCheckpointScanTreeOut, hm] at hr
+      simp only [Bool.not_eq_true] at hm
+      by_cases hany : (leaves.any fun a => a.length != prod ls) = true
+      · simp [nestedCheckpointScanTreeOut, hm, hany] at hr
+      simp only [Bool.not_eq_true] at hany
+      have hx : ∀ a ∈ leaves, a.length = prod ls := by
+        intro a ha
+        have := (List.any_eq_false.mp hany) a ha
+        simpa using this
+      refine ⟨hm, hx, ?_, fun h => absurd rfl h⟩
+      rintro rfl
+      simp [nestedCheckpointScanTreeOut, hm, hany, innerNestedScanTreeOut] at hr
+    · rintro ⟨hm, hx, hne, _⟩
+      refine ⟨scan f init (rows (prod ls) leaves),
+        nestedCheckpointScanTreeOut_eq_scan 0 f init leaves length ls hne (fun h => absurd rfl h) hx ?_⟩
+      intro n hn
+      subst hn
+      simpa [lengthMismatch] using hm
+
+/-- non-vacuity, output-less bodies (`Y = Unit`, `nOut = 0`): zero outer length accepted, normal
+ lengths, and the same calls with one output leaf -/
+example : nestedCheckpointScanOut 0 (fun (c : Nat) (_ : Nat) => (c + 1, ())) 0 ([] : List Nat)
+    none [0, 3] = .ok (0, []) := by decide
+example : nestedCheckpointScanOut 0 (fun (c : Nat) (_ : Nat) => (c + 1, ())) 0 ([] : List Nat)
+    (some 0) [2, 0, 3] = .ok (0, []) := by decide
+example : nestedCheckpointScanOut 0 (fun (c : Nat) (x : Nat) => (c + x, ())) 1 [1, 2, 3, 4, 5, 6]
+    none [2, 3] = .ok (22, [(), (), (), (), (), ()]) := by decide
+example : nestedCheckpointScanOut 1 (fun (c : Nat) (_ : Nat) => (c + 1, c)) 0 ([] : List Nat)
+    none [0, 3] = .error .valueError := by decide
+example : nestedCheckpointScanOut 2 (fun (c : Nat) (x : Nat) => (c + x, (c, x))) 1 [1, 2, 3, 4]
+    none [2, 2] = .ok (11, [(1, 1), (2, 2), (4, 3), (7, 4)]) := by decide
+example : nestedCheckpointScanTreeOut 0 (fun (c : Nat) (r : List Nat) => (c + r.length, ())) 5
+    [[], []] (some 0) [0, 2] = .ok (5, []) := by decide
+example : nestedCheckpointScanTreeOut 0 (fun (c : Nat) (_ : List Nat) => (c + 1, ())) 0
+    [] (some 6) [3, 2] = .ok (6, [(), (), (), (), (), ()]) := by decide
+/-- the hypotheses of `nestedCheckpointScanOut_ok_iff` on the output-less zero-outer-length call -/
+example : ∃ r, nestedCheckpointScanOut 0 (fun (c : Nat) (_ : Nat) => (c + 1, ())) 0 ([] : List Nat)
+    none [0, 3] = .ok r :=
+  (nestedCheckpointScanOut_ok_iff 0 _ 0 [] none [0, 3]).mpr
+    ⟨rfl, rfl, by simp, fun h => absurd rfl h⟩
+/-- empty nesting: one row `IndexError`, otherwise `TypeError`, wrong `length` first -/
+example : nestedCheckpointScanOut 1 (fun (c : Nat) (x : Nat) => (c + x, c)) 0 [7] (some 1) []
+    = .error .indexError := by decide
+example : nestedCheckpointScanOut 1 (fun (c : Nat) (x : Nat) => (c + x, c)) 0 [7, 8] none []
+    = .error .typeError := by decide
+example : nestedCheckpointScanOut 1 (fun (c : Nat) (x : Nat) => (c + x, c)) 0 [7, 8] (some 2) []
+    = .error .valueError := by decide
+example : nestedCheckpointScanOut 0 (fun (c : Nat) (x : Nat) => (c + x, ())) 0 ([] : List Nat) none []
+    = .error .typeError := by decide
 
 end nested
 
